@@ -656,7 +656,9 @@ def run_sharing(shard, rec, rng, np, ns, sim):
                 for subset in itertools.combinations(range(m), m - t):
                     keys[subset] = bytes(rng.randrange(256) for _ in range(16))
                 for i in range(m):
-                    prfs = {s: thresha.PRF(k, p) for s, k in keys.items() if i in s}
+                    mine = [(s, k) for s, k in keys.items() if i in s]
+                    rng.shuffle(mine)                  # a party's key table is in arrival order, not lexicographic
+                    prfs = {s: thresha.PRF(k, p) for s, k in mine}
                     uci = bytes(rng.randrange(256) for _ in range(8))
                     l1 = thresha.pseudorandom_share(F, m, i, prfs, uci, n)
                     a1 = thresha.np_pseudorandom_share(F, m, i, prfs, uci, n)
